@@ -29,6 +29,8 @@ META = {
 
 KEY_INDEXED = "C19:interface-output-drops-indexed"
 KEY_IFACE_TYPES = "C19:interface-output-omits-interface-types"
+KEY_MI_ZEROS = "C19:method-identifiers-drop-leading-zeros"
+ZERO_ID_SRC = "@external\ndef evi(a: uint8) -> uint8:\n    return a\n"   # selector 0x08c6be77
 I0_DEF = "interface I0:\n    def foo() -> uint256: view\n"
 
 
@@ -104,7 +106,7 @@ def part_model_differential(ctx, contracts):
         fts = {f.name: f for f in mt.exposed_functions}
         if mt.init_function is not None:
             fts["__init__"] = mt.init_function
-        for f in K["funcs"] + [K["ctor"]]:
+        for f in K["funcs"] + ([K["ctor"]] if K["ctor"] else []):
             ft = fts[f["name"]]
             entries = "|".join(show_entry_real(e) for e in ft.to_toplevel_abi_dict())
             if f["kind"] == "ctor":
@@ -255,6 +257,12 @@ def drive(ctx, K, cfg, rnd, stats):
         fail("ABI lists a fallback but the contract has no __default__")
     # method_identifiers == ids derived from the ABI entries
     listed = {fsig(e): "0x" + keccak(fsig(e).encode())[:4].hex() for e in fentries}
+    malformed = {k: v for k, v in out["method_identifiers"].items() if not re.fullmatch(r"0x[0-9a-f]{8}", str(v))}
+    if malformed:
+        stats["method_identifiers_malformed"] += 1
+        if stats["method_identifiers_malformed"] == 1:
+            ctx.violation("failing-input", "`method_identifiers` lists an id that is not a 4-byte hex string (leading zeros dropped)",
+                          {"src": K["src"], "config": cfg.name, "malformed": malformed}, key=KEY_MI_ZEROS)
     mi = {k: "0x" + int(v, 16).to_bytes(4, "big").hex() for k, v in out["method_identifiers"].items()}
     if listed != mi:
         fail("method_identifiers output differs from the ids of the ABI function entries", from_abi=listed, method_identifiers=mi)
@@ -267,17 +275,25 @@ def drive(ctx, K, cfg, rnd, stats):
     # deploy from the constructor entry
     ch = Chain(cfg.evm if cfg.evm != "prague" else "prague")
     code = bytes.fromhex(out["bytecode"][2:])
-    imm_t = K["ctor"]["pos"][0][1]
-    imm_v = G.value(imm_t, rnd, min_len=1)
-    if len(ctor) != 1:
-        fail("expected exactly one constructor entry", n=len(ctor))
-    cargs = encode_args(ctor[0]["inputs"], [imm_v])
-    payable_ctor = ctor[0]["stateMutability"] == "payable"
-    if not payable_ctor and ch.deploy(code + cargs, value=1) is not None:
-        fail("constructor listed nonpayable accepted value")
-    addr = ch.deploy(code + cargs, value=1 if payable_ctor else 0)
-    if addr is None:
-        fail("deployment with ABI-encoded constructor args failed", args=str(imm_v))
+    if K["ctor"] is None:
+        if ctor:
+            fail("ABI lists a constructor but none is declared")
+        imm_v = None
+        addr = ch.deploy(code)
+        if addr is None:
+            fail("deployment failed")
+    else:
+        imm_t = K["ctor"]["pos"][0][1]
+        imm_v = G.value(imm_t, rnd, min_len=1)
+        if len(ctor) != 1:
+            fail("expected exactly one constructor entry", n=len(ctor))
+        cargs = encode_args(ctor[0]["inputs"], [imm_v])
+        payable_ctor = ctor[0]["stateMutability"] == "payable"
+        if not payable_ctor and ch.deploy(code + cargs, value=1) is not None:
+            fail("constructor listed nonpayable accepted value")
+        addr = ch.deploy(code + cargs, value=1 if payable_ctor else 0)
+        if addr is None:
+            fail("deployment with ABI-encoded constructor args failed", args=str(imm_v))
     stats["deploys"] += 1
     sel_of = {}
     calls_for_caller = []
@@ -330,6 +346,8 @@ def drive(ctx, K, cfg, rnd, stats):
                     exp = [env[n] for n, _ in f["ret"]]
                     if len(f["ret"]) == 1 and f["ret"][0][1][0] == "tuple" and len(f["ret"][0][1][1]) > 1:
                         exp = list(exp[0])
+                    if f.get("wrap1"):
+                        exp = [tuple(exp)]
                     if tuple(exp) != dv:
                         fail("decoded return value differs from the value sent / the declared default", sig=sig,
                              calldata=data.hex(), expected=str(exp), got=str(dv))
@@ -588,12 +606,20 @@ def run(ctx):
         n_model, bad = part_model_differential(ctx, contracts)
         n_model += part_mutability(ctx)
     stats = collections.Counter()
-    cfgs = core_configs()
+    from vlib.configs import Config
+    cfgs = [Config(False, "gas", "shanghai"), Config(False, "none", "london"), Config(True, "gas", "prague"),
+            Config(True, "O3", "cancun"), Config(True, "gas", "paris")]
     found = False
     reported = set()
     drv = ctx.rng("drive")
+    # permanent probe: a selector with a leading zero byte
+    contracts = contracts + [{"src": ZERO_ID_SRC, "funcs": [{"name": "evi", "mut": "nonpayable", "pos": [("a", ("int", False, 8))], "kws": [],
+                                                              "ret": [("a", ("int", False, 8))], "event": None, "kind": "echo"}],
+                              "pubvars": [], "events": [], "errors": [], "ctor": None, "structs": [], "flags": []}]
     for i, K in enumerate(contracts):
-        use = cfgs if (ctx.tier == "thorough" or i < 2) else [cfgs[i % 2], cfgs[2 + i % 2]][: (2 if i < 6 else 1)]
+        # every contract runs on a pre-cancun legacy target (storage re-entrancy lock: a view function must not write it)
+        # and on one venom target; thorough: all
+        use = cfgs if ctx.tier == "thorough" else [cfgs[i % 2], cfgs[2 + i % 3]]
         for cfg in use:
             try:
                 drive(ctx, K, cfg, drv, stats)
